@@ -8,6 +8,8 @@ def key(r):
     why = r["why"]
     if req.get("slow") and ("status" in why or "request" in why or "not parsable" in why):
         return "C01:slow-request-body:%s" % req.get("body")
+    if "HTTP/1.0 client" in why:
+        return "C02:chunked-to-http10-client:%s" % up.get("fr")
     if "not parsable" in why or "stray" in why or "body differs" in why:
         if ex.get("undone") and up.get("fr") != "chunked":
             return "C02:decompressed-unknown-length-no-framing"
@@ -55,6 +57,9 @@ def run(ctx):
                 "k-th answers k-th, and incremental delivery by causality (origin sends part two only after the client saw part "
                 "one). Non-trivial = sequence containing a non-plain-200-CL exchange.")
     ctx.mc("H1Conn.tla", "MC_H1Conn.cfg")
+    ok, _, _, _ = ctx.mc("H1Conn.tla", "MC_H1Conn_ChunkedTo10.cfg", expect_ok=False)
+    if ok:
+        raise vlib.Infra("H1Conn mutant ChunkedTo10 not detected by the model")
     binp = ctx.build()
     run_seq(ctx, binp, q, key, "C02")
 
